@@ -110,8 +110,9 @@ func run(t *testing.T, ck Check) {
 		Extra: map[string]any{"states_per_scenario": perScenario, "transitions_by_kind": trs, "dedup_hits": total.Counters["dedup_hits"],
 			"replayed_steps": total.Counters["replayed_steps"], "max_depth": total.Counters["max_depth"],
 			"scenarios_closed": total.Counters["closed_scenarios"], "scenarios_total": len(scs),
-			"divergence_retries":             total.Counters["divergence_retries"],
-			"dedup_bisimulation_spot_checks": total.Counters["dedup_bisim_checks"], "porcupine_cross_checks": total.Counters["porcupine_cross_checks"]},
+			"divergence_retries":                 total.Counters["divergence_retries"],
+			"discarded_random_election_timeouts": total.Counters["discarded_random_election_timeouts"],
+			"dedup_bisimulation_spot_checks":     total.Counters["dedup_bisim_checks"], "porcupine_cross_checks": total.Counters["porcupine_cross_checks"]},
 		Assumptions: ck.Assumptions,
 	})
 }
